@@ -534,4 +534,13 @@ def no_stale_lazy_cache(repo: Repo) -> RuleRun:
 
 no_stale_lazy_cache.rule_id = "C15.NO-STALE-CACHE"
 
-RULES = [write_guard, edge_neighbours, boundary_rule, backport, no_stale_lazy_cache, irregular_valence]
+def no_rounding(repo: Repo) -> RuleRun:
+    """'leaves every boundary point and every point the user fixed EXACTLY where it was': positions pass through the grid unrounded."""
+    from ..tolerance import no_rounding_rule
+
+    return no_rounding_rule(repo, PROP, "C15.NO-ROUNDING", ('optimize.',))
+
+
+no_rounding.rule_id = "C15.NO-ROUNDING"
+
+RULES = [write_guard, edge_neighbours, boundary_rule, backport, no_stale_lazy_cache, irregular_valence, no_rounding]
